@@ -1,3 +1,48 @@
-From DI Require Import PyStr Copyright.
-Theorem C10_placeholder : True. Proof. exact I. Qed.
-Print Assumptions C10_placeholder.
+(* C10 - Copyright field line ranges locate exactly the field's content (partial:
+   the composition through merged unknown paragraphs / folded licenses and the
+   document-level shift law are established by co-execution and by the executable
+   statement, not proved). *)
+From Coq Require Import String.
+From Coq Require Import NArith List Bool Sorted.
+From DI Require Import Result PyStr Deb822 Debcon Copyright Deb822Facts CopyrightFacts RangeFacts.
+Import ListNotations.
+Open Scope N_scope.
+
+(* the range recorded for a field is (first line with content, last line) of one of the
+   fields of the paragraph, and that field has a non-empty value *)
+Theorem C10_ranges_come_from_fields : forall t fs p, from_fields t fs = Ok p ->
+  forall r, In r (map snd (p_lines p)) -> exists f, In f fs /\ r = range_of f /\ field_text f <> [].
+Proof. exact from_fields_ranges. Qed.
+Print Assumptions C10_ranges_come_from_fields.
+
+(* for a field whose line numbers increase (C05): start and end are numbers of its own lines
+   (hence between 1 and the number of source lines), start <= end, no line of the field lies
+   after end, and no line with content lies before start *)
+Theorem C10_range_tight : forall f,
+  StronglySorted N.lt (nums f) -> f_lines f <> [] ->
+  In (first_content_line f) (nums f) /\ In (last_line f) (nums f) /\
+  first_content_line f <= last_line f /\
+  (forall l, In l (f_lines f) -> ln_num l <= last_line f) /\
+  (forall l, In l (f_lines f) -> is_blank (ln_val l) = false -> first_content_line f <= ln_num l).
+Proof. exact field_range. Qed.
+Print Assumptions C10_range_tight.
+
+(* line numbers increase strictly over all fields of all paragraphs in source order, so the
+   ranges of different fields are disjoint and increasing *)
+Theorem C10_numbers_increase_across_fields : forall t gs, groups t = Ok gs ->
+  StronglySorted N.lt (map ln_num (flat gs)).
+Proof. intros t gs H. exact (proj1 (groups_numbers t gs H)). Qed.
+Print Assumptions C10_numbers_increase_across_fields.
+
+(* k blank lines at the top shift every line number by exactly k and change nothing else
+   (paragraphs, field names, values) in what the copyright object is built from *)
+Theorem C10_shift_partial : forall k t,
+  groups (repeat 10 k ++ t) = rmap (map (map (shift_field (N.of_nat k)))) (groups t).
+Proof. exact groups_shift. Qed.
+Print Assumptions C10_shift_partial.
+
+Example C10_value_less_declaration :
+  exists ps, from_text (lit "Files: *" ++ [10] ++ lit "Copyright: x" ++ [10] ++ lit "License:" ++ [10; 10] ++
+                        lit " text" ++ [10] ++ lit " more") = Ok ps /\
+             map p_lines ps = [[(lit "files", (1, 1)); (lit "copyright", (2, 2)); (lit "license", (5, 6))]].
+Proof. eexists. split; vm_compute; reflexivity. Qed.
